@@ -13,12 +13,13 @@
                   routines of convert.rs                   (module BitDigits)
    They are instantiated with the models of those areas in model/RadixInst.v.
    Small digits (`u8`) are [Z] in [list Z]. *)
-From BigNum Require Import Base AddSub.
+From BigNum Require Import Base AddSub Div.
 Open Scope Z_scope.
 
 (** Source-extracted parameters of this area. *)
 Record radix_params := {
   rp_as : addsub_params;        (* add2 used by from_radix_digits_be *)
+  rp_div : div_params;          (* `digits.div_rem(&big_base)` *)
   rp_str_lo : Z; rp_str_hi : Z; (* `assert!(2 <= radix && radix <= 36)` (text) *)
   rp_dig_lo : Z; rp_dig_hi : Z; (* `assert!(2 <= radix && radix <= 256)` (digit vectors) *)
   rp_guard : Z;                 (* `if radix != 256 && buf.iter().any(|&b| b >= radix as u8)` *)
